@@ -49,6 +49,8 @@ mod reorg;
 mod rtx;
 mod updater;
 mod utxo_entry;
+#[cfg(feature = "verif")]
+mod verif;
 
 #[cfg(test)]
 pub(crate) mod testing;
@@ -683,6 +685,12 @@ impl Index {
         outputs_traversed: 0,
         sat_ranges_since_flush: 0,
       };
+
+      #[cfg(feature = "verif")]
+      crate::verif::emit(
+        "UpdateBegin",
+        serde_json::json!({"height": updater.height}),
+      );
 
       match updater.update_index(wtx) {
         Ok(ok) => return Ok(ok),
